@@ -613,6 +613,20 @@ class World:
         self.log.add("out", [R.tensor_digest(g) if isinstance(g, torch.Tensor) else repr(g) for g in G])
         if alias_exp:
             self.judge_aliases(fn, op, xs, alias_exp, i)
+        if self.prop == "C05":
+            # an operation that is not in-place leaves its operands what they were (the float program's operands do
+            # not change): a later step of the program reads them again
+            for j, x in enumerate(xs):
+                if not R.is_q(x) or (fn in INPLACE and j == 0) or not isinstance(fx[j], torch.Tensor):
+                    continue
+                try:
+                    now = x.dequantize()
+                except Exception:
+                    continue
+                if now.shape != fx[j].shape or not bool(((now == fx[j]) | (torch.isnan(now) & torch.isnan(fx[j]))).all()):
+                    self.res["judged"] += 1
+                    self.violate("C05", "operand", fn, {"clause": "value", "cause": "operand_changed_by_operation", "operand": j, "operands": opclass(x)}, f"operand {j} of {fn} (slot {src[j] if j < len(src) else '?'}) dequantizes differently after the call: the operation modified its input", i)
+                    break
         if qany and self.prop == "C05":
             self.res["judged"] += 1
             self.judge_values(fn, op, cls, xs, fx, aux, as_list(exp), G, i)
